@@ -182,11 +182,15 @@ func (r *Run) CaseSeed(phase string, i int) int64 {
 	return v
 }
 
-func (r *Run) Rule(s string)          { r.mu.Lock(); r.rule = s; r.mu.Unlock() }
-func (r *Run) Exhaustive(b bool)      { r.mu.Lock(); r.exhaustive = b; r.mu.Unlock() }
-func (r *Run) Assume(s ...string)     { r.mu.Lock(); r.assumptions = append(r.assumptions, s...); r.mu.Unlock() }
-func (r *Run) Trusted(s ...string)    { r.mu.Lock(); r.trusted = append(r.trusted, s...); r.mu.Unlock() }
-func (r *Run) Extra(k string, v any)  { r.mu.Lock(); r.extra[k] = v; r.mu.Unlock() }
+func (r *Run) Rule(s string)     { r.mu.Lock(); r.rule = s; r.mu.Unlock() }
+func (r *Run) Exhaustive(b bool) { r.mu.Lock(); r.exhaustive = b; r.mu.Unlock() }
+func (r *Run) Assume(s ...string) {
+	r.mu.Lock()
+	r.assumptions = append(r.assumptions, s...)
+	r.mu.Unlock()
+}
+func (r *Run) Trusted(s ...string)     { r.mu.Lock(); r.trusted = append(r.trusted, s...); r.mu.Unlock() }
+func (r *Run) Extra(k string, v any)   { r.mu.Lock(); r.extra[k] = v; r.mu.Unlock() }
 func (r *Run) Require(f string, n int) { r.mu.Lock(); r.required[f] = int64(n); r.mu.Unlock() }
 
 // Case records one evaluated case. sig identifies the case's *shape* (what
@@ -286,6 +290,9 @@ func (r *Run) Violation(key, what, phase string, caseSeed int64, detail any) {
 	b, _ := json.MarshalIndent(rp, "", " ")
 	h := sha256.Sum256(b)
 	dir := filepath.Join(Root(), "replays")
+	if os.Getenv("VERIF_NOEVIDENCE") != "" {
+		dir = filepath.Join(Root(), ".work", "replays-trial")
+	}
 	os.MkdirAll(dir, 0o755)
 	path := filepath.Join(dir, fmt.Sprintf("%s-%s.json", r.Prop, hex.EncodeToString(h[:6])))
 	os.WriteFile(path, b, 0o644)
@@ -313,6 +320,14 @@ func (r *Run) Guard(phase string, caseSeed int64, f func()) {
 		}
 	}()
 	f()
+}
+
+// PanicKey derives the structural signature of a recovered panic from its stack.
+func PanicKey(stack string) string {
+	if strings.Contains(stack, "/repo/") {
+		return "panic-in-repo:" + firstRepoFrame(stack)
+	}
+	return "panic-in-harness"
 }
 
 func firstRepoFrame(st string) string {
@@ -446,7 +461,7 @@ func (r *Run) Finish() int {
 	if r.assumptions == nil {
 		ev["assumptions"] = []string{}
 	}
-	if r.replay == nil {
+	if r.replay == nil && os.Getenv("VERIF_NOEVIDENCE") == "" {
 		b, _ := json.MarshalIndent(ev, "", " ")
 		dir := filepath.Join(Root(), "evidence")
 		os.MkdirAll(dir, 0o755)
